@@ -27,10 +27,12 @@ FILES = ["vaporetto/src/sentence.rs", "vaporetto/src/predictor.rs", "vaporetto/s
          "vaporetto_rules/src/sentence_filters/concat_grapheme_clusters.rs", "vaporetto_rules/src/sentence_filters/kytea_wsconst.rs",
          "vaporetto_rules/src/sentence_filters/pattern_match_tagger.rs", "vaporetto_rules/src/sentence_filters/split_linebreaks.rs",
          "vaporetto_rules/src/string_filters/kytea_fullwidth.rs", "vaporetto_tantivy/src/lib.rs",
-         "predict/src/main.rs", "evaluate/src/main.rs", "manipulate_model/src/main.rs"]
+         "predict/src/main.rs", "evaluate/src/main.rs", "manipulate_model/src/main.rs", "train/src/main.rs", "convert_kytea_model/src/main.rs"]
 OPS = [(r"<=", "<"), (r"(?<![<>=!-])<(?![<=])", "<="), (r">=", ">"), (r"(?<![<>=!-])>(?![>=])", ">="), (r"==", "!="), (r"!=", "=="),
        (r"\+ 1\b", "+ 0"), (r"\+ 1\b", "+ 2"), (r"- 1\b", "- 0"), (r"&&", "||"), (r"\|\|", "&&"), (r"\btrue\b", "false"), (r"\bfalse\b", "true"),
-       (r"\+=", "-="), (r"\b0\b", "1"), (r"\b1\b", "0"), ("DELETE", "")]
+       (r"\+=", "-="), (r"\b0\b", "1"), (r"\b1\b", "0"), ("DELETE", ""),
+       # second batch (appended, so that the indices recorded by the first run stay valid)
+       (r"\.min\(", ".max("), (r"\.max\(", ".min("), (r"\.\.=", ".."), (r"if !", "if "), (r"\* 2\b", "* 1"), (r"\.skip\(", ".take("), (r"\.rev\(\)", "")]
 
 
 def sh(cmd, cwd, timeout=3600):
@@ -113,8 +115,13 @@ def main():
                 continue
             rec["status"] = "survived"
             hits = {}
-            for c in range(1, 21):
-                pid = f"C{c:02d}"
+            # the checks whose property is anchored in the mutated file first; one alarm is enough
+            anchored = [json.loads(l) for l in open(os.path.join(VERIF, "properties.jsonl"))]
+            first = [p["id"] for p in anchored if f in p["anchors"].get("files", [])]
+            order = first + [f"C{c:02d}" for c in range(1, 21) if f"C{c:02d}" not in first]
+            for pid in order:
+                if hits:
+                    break
                 try:
                     r = sh([os.path.join(VERIF, "check"), pid, "--tier", "quick"], VERIF, timeout=1500)
                 except subprocess.TimeoutExpired:
